@@ -12,7 +12,8 @@ EXPLANATION = (
     "ATOM: encode_len/encode_dist/d_code/tally_dist reference exactly the tables of their side (LENGTH_CODE, BASE_LENGTH, "
     "EXTRA_LBITS / DIST_CODE, BASE_DIST, EXTRA_DBITS) and the d_code index split (256, >>7). Nothing dynamic (window, "
     "hashing, block flushing, params switching) is decided. "
-    "SIB/ref-writes: for the compressor core (fill_window, lm_init, lm_set_level and the seven deflate_* block functions) every state field that zlib-ng's function assigns (frozen extract of the vendored C sources) is assigned by the zlib-rs counterpart, by a listed helper call, or by a function that accompanies it in every caller - a dropped rebase/reset of match or cursor state on a window slide breaks the round trip. WHO/overlap-safe-copy: the decoder's copy_match_help uses block copies only under length <= distance.")
+    "SIB/ref-writes: for the compressor core (fill_window, lm_init, lm_set_level and the seven deflate_* block functions) every state field that zlib-ng's function assigns (frozen extract of the vendored C sources) is assigned by the zlib-rs counterpart, by a listed helper call, or by a function that accompanies it in every caller - a dropped rebase/reset of match or cursor state on a window slide breaks the round trip. WHO/overlap-safe-copy: the decoder's copy_match_help uses block copies only under length <= distance. "
+    "ATOM/stored-final-block: a stored block is flagged final only with flush == Finish and length == bytes left. SIB/ref-conditions: the elementary conditions and calls of the zlib-ng functions this code was ported from (oracles/condparity.json, frozen from the vendored C sources) keep a counterpart in the paired zlib-rs function.")
 
 CLAIM = dict(
     text="Static: exhaustive enumeration (33k cases) of the symbol-level round trip through the compiler-evaluated "
